@@ -38,7 +38,7 @@ import (
 // cannot discriminate; see design.d/C08.md.
 
 func init() {
-	streams = append(streams, stream{"get-park", false, 16, 200, genGetPark})
+	streams = append(streams, stream{"get-park", false, 16, 48, genGetPark})
 }
 
 var gidRe = regexp.MustCompile(`^goroutine (\d+) \[`)
@@ -52,19 +52,49 @@ func curGID() string {
 	return ""
 }
 
-// blockedOnMutex: goroutine gid is waiting for a sync.Mutex inside jrpc2
+// blockedOnMutex: goroutine gid is waiting for a sync.Mutex inside jrpc2.
+// The dump of all goroutines must be complete (late in a thorough run the
+// process holds thousands of parked poller goroutines): the buffer grows until
+// the dump fits.
+var stackBuf = make([]byte, 1<<20)
+
 func blockedOnMutex(gid string) bool {
-	buf := make([]byte, 1<<20)
-	n := runtime.Stack(buf, true)
-	for _, g := range strings.Split(string(buf[:n]), "\n\n") {
-		if !strings.HasPrefix(g, "goroutine "+gid+" [") {
-			continue
+	var n int
+	for {
+		n = runtime.Stack(stackBuf, true)
+		if n < len(stackBuf) {
+			break
 		}
-		head := g[:strings.Index(g, "\n")]
-		waiting := strings.Contains(head, "sync.Mutex.Lock") || strings.Contains(head, "semacquire")
-		return waiting && strings.Contains(g, "jrpc2.(*cache)")
+		stackBuf = make([]byte, 2*len(stackBuf))
 	}
-	return false
+	dump := string(stackBuf[:n])
+	i := strings.Index(dump, "goroutine "+gid+" [")
+	if i < 0 {
+		return false
+	}
+	g := dump[i:]
+	if j := strings.Index(g, "\n\n"); j >= 0 {
+		g = g[:j]
+	}
+	head := g
+	if j := strings.Index(g, "\n"); j >= 0 {
+		head = g[:j]
+	}
+	waiting := strings.Contains(head, "sync.Mutex.Lock") || strings.Contains(head, "semacquire")
+	return waiting && strings.Contains(g, "jrpc2.(*cache)")
+}
+
+// waitBlocked polls (a millisecond apart) until the goroutine is seen blocked;
+// false after the limit -- the caller proceeds, the outcome check stays valid
+func waitBlocked(gid string, limit time.Duration) bool {
+	t0 := time.Now()
+	for !blockedOnMutex(gid) {
+		if time.Since(t0) > limit {
+			return false
+		}
+		time.Sleep(time.Millisecond)
+	}
+	return true
 }
 
 func genGetPark(seed uint64) lib.Case {
@@ -117,14 +147,8 @@ func genGetPark(seed uint64) lib.Case {
 		}(w)
 	}
 	for w := 0; w < waiters && synced; w++ {
-		gid := <-gids[w]
-		t0 := time.Now()
-		for !blockedOnMutex(gid) {
-			if time.Since(t0) > 5*time.Second {
-				synced = false // proceed: the outcome check below is valid anyway
-				break
-			}
-			runtime.Gosched()
+		if !waitBlocked(<-gids[w], 2*time.Second) {
+			synced = false // proceed: the outcome check below is valid anyway
 		}
 	}
 	nbaseBefore := srv.Count(cachesim.ClsBase)
